@@ -253,8 +253,73 @@ func c19(r *core.Run) {
 	nameFree(r, "C19.NAMEFREE", []string{"pkg/analysis/topology"})
 }
 
+// zipRoles: the current names of the zipper's state fields, resolved by type and use (they are unexported and
+// freely renamable): the two instruction maps, the value map, and which instruction map is keyed by instructions
+// of the old function (the first argument of the exported constructor).
+type zipRoles struct{ fwd, rev, val, oldFn, newFn string }
+
+func zipperRoles(p *core.Program) zipRoles {
+	var z zipRoles
+	var zt types.Type
+	if pk := p.SSAPkg("pkg/diff"); pk != nil {
+		if m, ok := pk.Members["Zipper"].(*ssa.Type); ok {
+			zt = m.Type()
+		}
+	}
+	if zt == nil {
+		return z
+	}
+	im := structFieldsBy(zt, isInstrInstrMap)
+	if vm := structFieldsBy(zt, isValueValueMap); len(vm) > 0 {
+		z.val = vm[0]
+	}
+	if ctor := p.Func("pkg/diff", "NewZipper"); ctor != nil && len(ctor.Params) >= 2 {
+		core.InstrsOf(ctor, func(in ssa.Instruction) {
+			if st, ok := in.(*ssa.Store); ok {
+				if fa, ok := st.Addr.(*ssa.FieldAddr); ok {
+					switch st.Val {
+					case ssa.Value(ctor.Params[0]):
+						z.oldFn = core.FieldName(fa.X.Type(), fa.Field)
+					case ssa.Value(ctor.Params[1]):
+						z.newFn = core.FieldName(fa.X.Type(), fa.Field)
+					}
+				}
+			}
+		})
+	}
+	if len(im) == 2 {
+		z.fwd, z.rev = im[0], im[1] // declaration order unless the uses say otherwise
+		for _, fn := range p.FuncsIn("pkg/diff") {
+			core.InstrsOf(fn, func(in ssa.Instruction) {
+				lk, ok := in.(*ssa.Lookup)
+				if !ok {
+					return
+				}
+				_, name, isI := fieldLoadBy(lk.X, isInstrInstrMap)
+				if !isI || z.oldFn == "" {
+					return
+				}
+				idx := core.Canon(lk.Index)
+				if strings.Contains(idx, "."+z.oldFn+".") && !strings.Contains(idx, "."+z.newFn+".") {
+					z.fwd = name
+					for _, o := range im {
+						if o != name {
+							z.rev = o
+						}
+					}
+				}
+			})
+		}
+	}
+	return z
+}
+
 func c09Maps(r *core.Run) {
 	p := r.P
+	zr := zipperRoles(p)
+	if !r.Check(zr.fwd != "" && zr.rev != "" && zr.val != "", "C09.MAPS", "diff.Zipper#state-fields", token.NoPos, "forward map "+zr.fwd+", reverse map "+zr.rev+", value map "+zr.val, "cannot resolve the zipper's two instruction maps and its value map by type") {
+		return
+	}
 	writers := map[string]map[*ssa.Function]bool{}
 	for _, fn := range p.FuncsIn("pkg/diff") {
 		core.InstrsOf(fn, func(in ssa.Instruction) {
@@ -273,7 +338,7 @@ func c09Maps(r *core.Run) {
 			}
 		})
 	}
-	for _, f := range []string{"instrMap", "revInstrMap", "valMap"} {
+	for _, f := range []string{zr.fwd, zr.rev, zr.val} {
 		ws := core.SortedFuncs(writers[f])
 		var names []string
 		for _, w := range ws {
@@ -282,7 +347,7 @@ func c09Maps(r *core.Run) {
 		r.Check(len(ws) == 1, "C09.MAPS", "diff.Zipper."+f+"#single-writer", token.NoPos, "written only in "+strings.Join(names, ","), "zipper map "+f+" is written in "+strings.Join(names, ",")+" (expected exactly one writer function): forward and reverse maps can drift apart")
 	}
 	// forward and reverse written together
-	fw, rv := core.SortedFuncs(writers["instrMap"]), core.SortedFuncs(writers["revInstrMap"])
+	fw, rv := core.SortedFuncs(writers[zr.fwd]), core.SortedFuncs(writers[zr.rev])
 	if len(fw) == 1 && len(rv) == 1 {
 		rec := fw[0]
 		r.Check(fw[0] == rv[0], "C09.MAPS", "diff.Zipper#forward-and-reverse-together", rec.Pos(), "forward and reverse instruction maps are written by the same function", "forward and reverse maps have different writer functions")
@@ -293,9 +358,9 @@ func c09Maps(r *core.Run) {
 				if u, ok := mu.Map.(*ssa.UnOp); ok {
 					if fa, ok := u.X.(*ssa.FieldAddr); ok {
 						switch core.FieldName(fa.X.Type(), fa.Field) {
-						case "instrMap":
+						case zr.fwd:
 							a = mu
-						case "revInstrMap":
+						case zr.rev:
 							b = mu
 						}
 					}
@@ -346,7 +411,12 @@ func c09Maps(r *core.Run) {
 					return ok1 && n1 > 0
 				}
 				n++
-				r.Check(chk("instrMap", oldV) && chk("revInstrMap", newV), "C09.MAPS", core.FuncName(fn)+"→"+rec.Name()+"#unmapped-only", ci.Pos(), "a match is recorded only if neither instruction is mapped yet", "an instruction match is recorded although the old or new instruction may already be mapped: the matching is not one-to-one")
+				// the map keyed by the recorder's i-th parameter is consulted with the i-th argument
+				m1, m2 := zr.fwd, zr.rev
+				if a != nil && b != nil && len(rec.Params) >= 3 && a.Key == ssa.Value(rec.Params[2]) && b.Key == ssa.Value(rec.Params[1]) {
+					m1, m2 = zr.rev, zr.fwd
+				}
+				r.Check(chk(m1, oldV) && chk(m2, newV), "C09.MAPS", core.FuncName(fn)+"→"+rec.Name()+"#unmapped-only", ci.Pos(), "a match is recorded only if neither instruction is mapped yet", "an instruction match is recorded although the old or new instruction may already be mapped: the matching is not one-to-one")
 			}
 		}
 		r.Floor("C09.MAPS", "match recordings inside loops", n, 1)
@@ -472,7 +542,8 @@ func c09Diverge(r *core.Run) {
 				return
 			}
 			n++
-			wantMap := map[string]string{"Removed": "instrMap", "Added": "revInstrMap"}[f]
+			zr := zipperRoles(p)
+			wantMap := map[string]string{"Removed": zr.fwd, "Added": zr.rev}[f]
 			okGuards := true
 			sawMap := false
 			detail := ""
